@@ -346,7 +346,7 @@ def c17(pid, tier, seed):
     chk = C.Check(pid, tier, seed, level="fault_enumeration")
     chk.rule = ("seeded histories of 1..3 (thorough 1..4) export calls over the fixed universe with one obstacle injected before one step "
                 "{target path is a directory, an ancestor is a regular file, a dependency's target is a directory, directory with more `..` than "
-                "the cwd depth, non-exportable root, a shared file written earlier in the history replaced by a directory or removed}, removed before retrying that step. Oracle: the faulted call returns Err (no panic, registry "
+                "the cwd depth, non-exportable root, a shared file written earlier in the history replaced by a directory}, removed before retrying that step. Oracle: the faulted call returns Err (no panic, registry "
                 "mutex not poisoned), files outside the call's target set are untouched, nothing is recorded for the failed write, the retry "
                 "succeeds and the final tree equals the fault-free run of the same history. distinct_nontrivial = distinct (configuration, "
                 "obstacle kind @ position, entry-point sequence, faulted type)")
@@ -374,7 +374,7 @@ def c17(pid, tier, seed):
         # per-shard distinct signatures (shards use different seeds; overlap is possible, so this is an upper bound capped below)
         for i in range(min(distinct, 100000)):
             chk.distinct.add(i)
-        for k in ("TargetIsDir", "ParentIsFile", "DepTargetIsDir", "AboveRoot", "NotExportable", "ExistingTargetIsDir", "ExistingTargetGone"):
+        for k in ("TargetIsDir", "ParentIsFile", "DepTargetIsDir", "AboveRoot", "NotExportable", "ExistingTargetIsDir"):
             if chk.coverage_extra.get("injected", {}).get(k, 0) == 0:
                 chk.note_inconclusive(f"obstacle {k} was never injected")
     finally:
